@@ -227,6 +227,10 @@ func LabelKey(k string) string {
 		return "meta"
 	case "batches":
 		return "queue"
+	case "headerSync":
+		return "p2p-header-store"
+	case "dataSync":
+		return "p2p-data-store"
 	case "sequencer":
 		return "based:" + strings.Join(parts[1:], "/")
 	}
